@@ -505,6 +505,7 @@ func checkC05(c *Ctx) {
 	c.Assume("AEAD idealisation: a frame opens under the receiver's key and counter only if it is the frame sealed under that key with that counter (exercised on the real primitive by the bit-flip, cross-direction and cross-session streams)")
 	c.Assume("fewer than 2^64 frames per direction (the counter wraps; hc and the HAP specification share this limit)")
 
+	c05Alias(c)
 	scs := c05Scenarios(c)
 	const block = 2000
 	counterAccess := true
@@ -732,4 +733,52 @@ func checkC05(c *Ctx) {
 	}
 	c.Extra("counter_access_by_reflection", counterAccess)
 	c.Extra("scenarios", len(scs))
+}
+
+// c05Alias: replay of a recorded frame at a position whose counter differs from the frame's own by a power of two
+// (or by any multiple of 2^32, 2^16, …). The nonce is the full 64-bit counter, so the frame must be rejected at every
+// such position — a nonce built from fewer bits would accept it again after the counter has advanced that far.
+// Counters are installed by reflection (a session can only reach them by sending that many frames).
+func c05Alias(c *Ctx) {
+	offs := []uint64{1 << 8, 1 << 16, 1 << 24, 1 << 31, 1 << 32, 3 << 32, 1 << 40, 1 << 48, 1 << 56, 1 << 63}
+	n := 0
+	for i := 0; i < c.Pick(6, 60); i++ {
+		r := c.CaseRng("alias", i)
+		base := uint64(r.Intn(1000))
+		if i%3 == 1 {
+			base = r.Uint64() >> uint(r.Intn(40))
+		}
+		for _, off := range offs {
+			id := fmt.Sprintf("alias#%d.%d", i, off)
+			if c.Skip(id) {
+				continue
+			}
+			pair := newSessPair(r)
+			if !(setCounter(pair.client, "encryptCount", base) && setCounter(pair.server, "decryptCount", base+off)) {
+				c.Hist("alias:counter-fields-not-accessible")
+				return
+			}
+			payload := randBytes(r, 1+r.Intn(60))
+			frame, err := hcEncrypt(pair.client, bytes.NewReader(payload))
+			if err != nil {
+				c.Violate("Encrypt returns an error for a well-behaved reader", id, hx(payload), "nil", err.Error())
+				continue
+			}
+			in := map[string]interface{}{"frame_sealed_at_counter": base, "delivered_at_counter": base + off, "offset": off}
+			out, _, derr := hcDecrypt(pair.server, bytes.NewReader(frame))
+			if derr == nil || len(out) > 0 {
+				c.Violate("Decrypt reports no error for an altered stream (frame replayed at a position whose counter differs by a power of two)", id, in,
+					"authentication error", fmt.Sprintf("released %d bytes", len(out)))
+			}
+			// the same payload sealed at the two counters must not give the same frame
+			setCounter(pair.client, "encryptCount", base+off)
+			frame2, _ := hcEncrypt(pair.client, bytes.NewReader(payload))
+			if bytes.Equal(frame, frame2) {
+				c.Violate("two frames with different counters are sealed under the same nonce", id, in, "different ciphertexts", "identical")
+			}
+			c.Count(id, true, "stream:alias")
+			n++
+		}
+	}
+	c.Extra("alias_positions_checked", n)
 }
